@@ -106,8 +106,25 @@ def make_family(name, reg0, nfree, hash_order):
         return res
     return Family(name, mk, run, hash_order=hash_order, target_prefixes=64)
 
+def similar_family():
+    """same final identifier under several modules, registry order different from every sorted order"""
+    reg = [prim("U8"), comp(["zeta", "S"], [fld("a", 0, "u8")]), comp(["alpha", "beta", "S"], [fld("a", 0, "u8")]), comp(["mid", "S"], []), comp(["alpha", "S"], [fld("b", 0, "u8")]),
+           comp(["mid", "T"], [fld("a", 1, "S"), fld("b", 2, "S"), fld("c", 3, "S"), fld("d", 4, "S")]), comp(["mid", "q", "S"], [])]
+    def mk(eng): return eng.choose([(q, True) for q in ("S", "x::S", "mid::S", "T", "nope::U", "alpha::beta::S")])
+    def run(eng, q):
+        regv = to_engine(reg); res = {"violations": [], "outcome": "Err"}
+        v = eng.call("similar_type_paths_in_registry", [], [Slot([regv], 0), Slot([syn_path(q)], 0)])
+        gotp = []
+        for x in deref(v).items:
+            ts = TS(); models_tok.to_tokens(eng, x, ts); gotp.append(c08.norm(eng_tok_str(ts)))
+        wantp = ["::".join(t["path"]) for t in reg if t["path"] and t["path"][-1] == q.split("::")[-1]]
+        case = {"op": "validate", "reg": regdsl.encode(reg).hex(), "set": [], "similar": [q]}
+        if gotp != wantp: res["violations"].append({"what": "similar paths for %s are %s, expected %s (registry order)" % (q, gotp, wantp), "case": case, "kind": "similar", "q": q})
+        res["validate"] = dict(case, expect={"similar_" + q.replace(" ", ""): ",".join(gotp)})
+        return res
+    return Family("similar-paths-unsorted-registry", mk, run, target_prefixes=1)
 def families(eng, tier, seed):
-    C = corpus(); fams = []
+    C = corpus(); fams = [similar_family()]
     for n in ("modules", "enum", "generics", "collections"):
         fams.append(make_family("validate-%s" % n, C[n], 2 if tier == "quick" else 3, "fork" if n != "generics" or tier == "thorough" else "reversed"))
     return fams
